@@ -84,9 +84,17 @@ def edits(rng, lines, limit):
         for p in sorted({0, len(s)} | {q for q in range(len(s) + 1) if (q < len(s) and s[q] == ' ') or (q > 0 and s[q - 1] == ' ')} | {rng.randint(0, len(s))}):
             ws = rng.choice(['\t', '\n', '\xa0', '\u2003'])
             out.append(('insert-unicode-space', lines[:i] + [s[:p] + ws + s[p:]] + lines[i + 1:]))
+    # content moved across a line break: the joined corpus is unchanged, the utterances are not
+    moved = []
+    for i in range(n - 1):
+        a, b = lines[i].split(), lines[i + 1].split()
+        if len(a) > 1:
+            moved.append(('move-word-down', lines[:i] + [' '.join(a[:-1]), ' '.join([a[-1]] + b)] + lines[i + 2:]))
+        if len(b) > 1:
+            moved.append(('move-word-up', lines[:i] + [' '.join(a + [b[0]]), ' '.join(b[1:])] + lines[i + 2:]))
     if len(out) > limit:
         out = rng.sample(out, limit)
-    return out
+    return out + moved
 
 
 def case_evaluate(text, gold, units, family):
